@@ -86,6 +86,8 @@ func replay(r *vlib.Run, raw json.RawMessage) {
 		} else {
 			judgePTR(r, e, &c, o)
 		}
+	case "wire", "wire-ptr":
+		replayWire(r, raw)
 	case "config":
 		if e := safeBuildEnv(r, head.Cfg); e != nil {
 			judgeConfig(r, e, head.Cfg)
@@ -115,6 +117,8 @@ func main() {
 	}
 	runPure(r)
 	runPipeline(r)
+	runWire(r)
+	requireWire(r)
 
 	r.Require("pure_roundtrips", 1000000)
 	r.Require("pure_boundary_pairs", 6*625)
